@@ -20,7 +20,7 @@ ID = "C10"
 LEVEL = "model_checking"
 RULE = (
     "service scan: 7 vendor / response-id services (0xA0, 0xA7, 0xBA, 0xBF, 0x9C, 0x54, 0x7B) each assigned every (availability profile over "
-    "sessions {1,2,3} x answer behaviour {positive on exactly one probe length 1/2/3/5, 0x31, 0x33, 0x13 only, silent, positive on an unprobed "
+    "sessions {1,2,3} x answer behaviour {positive on exactly one probe length 1/2/3/5, 0x31, 0x33, 0x13 only, silent, silent below a probe length then 0x31 / positive, positive on an unprobed "
     "length}) combination, ISO services 0x22/0x3E/0x31/0x85 every (profile x well-formed behaviour) - packed 11 per model ECU (services are probed independently), thorough: additionally the full cross product on two "
     "services - x configurations (session lists incl. none and an unavailable session, skip maps incl. bare session key, response ids on/off, "
     "check-session, reset). identifier scan: all subsets of a 6-identifier universe straddling a byte boundary per session x service {0x22, 0x27, "
@@ -38,11 +38,11 @@ worker_init = scan_common.worker_init
 
 SESS = (1, 2, 3)
 PROFILES = [(), (1,), (2,), (3,), (1, 2), (2, 3), (1, 2, 3)]
-BEHAV = ["pos1", "pos2", "pos3", "pos5", "nrc31", "nrc33", "len13", "silent", "pos4"]
+BEHAV = ["pos1", "pos2", "pos3", "pos5", "nrc31", "nrc33", "len13", "silent", "pos4", "sil<3:nrc31", "sil<5:pos5"]
 SIDS = [0xA0, 0xA7, 0xBA, 0xBF, 0x9C, 0x54, 0x7B]  # vendor / response-id services: every behaviour is a legal answer
 # ISO services: only answers that are well-formed for the probe PDUs (zero payload) are legal
 TYPED = {0x22: ["pos2", "nrc31", "nrc33", "len13", "silent"], 0x3E: ["pos1", "nrc31", "len13"], 0x31: ["pos3", "nrc31", "nrc33", "len13", "silent"], 0x85: ["pos1", "nrc31", "nrc33", "len13", "silent"]}
-MEANINGFUL = {"pos1", "pos2", "pos3", "pos5", "nrc31", "nrc33"}
+MEANINGFUL = {"pos1", "pos2", "pos3", "pos5", "nrc31", "nrc33", "sil<3:nrc31", "sil<5:pos5"}
 
 
 def positive_reply(sid: int, req: bytes) -> bytes:
@@ -103,6 +103,11 @@ class ServiceModel:
             # keep the keep-alive of the scanner itself working: plain TesterPresent is answered
             pass
         n = len(req) - 1
+        if beh.startswith("sil<"):  # drops too-short requests, answers from a certain probe length on
+            k, then = beh[4:].split(":")
+            if n < int(k):
+                return None, session
+            beh = then
         if beh.startswith("pos"):
             if n == int(beh[3:]):
                 return positive_reply(sid, req), session
@@ -392,11 +397,11 @@ def items(tier: str, seed: int) -> list[Any]:
     out: list[Any] = []
     combos = list(itertools.product(range(len(PROFILES)), range(len(BEHAV))))  # 63
     n = len(combos)
-    # service scan: model m gives SID i the combination (m + 9*i) mod 63 -> every SID meets every combination once
+    # service scan: model m gives SID i the combination (m + 11*i) mod 77 -> every SID meets every combination once
     for m in range(n):
         table = {}
         for i, sid in enumerate(SIDS):
-            p, b = combos[(m + 9 * i) % n]
+            p, b = combos[(m + 11 * i) % n]
             table[sid] = (PROFILES[p], BEHAV[b])
         for i, (sid, behs) in enumerate(TYPED.items()):
             k = m + 5 * i
@@ -406,7 +411,7 @@ def items(tier: str, seed: int) -> list[Any]:
             out.append({"kind": "services", "table": table, "cfg": eval(cfg), "sample": m == 5 and ci == 0})  # noqa: S307
     if not quick:
         for (p1, b1), (p2, b2) in itertools.product(combos, repeat=2):
-            if (p1 * 9 + b1 + p2 * 9 + b2) % 4:
+            if (p1 * 11 + b1 + p2 * 11 + b2) % 5:
                 continue  # a quarter of the full cross product; remaining pairs differ only in the unprobed combination
             out.append({"kind": "services", "table": {0xA0: (PROFILES[p1], BEHAV[b1]), 0xBA: (PROFILES[p2], BEHAV[b2])}, "cfg": {"sessions": [1, 2, 3]}})
     # identifier scan
